@@ -99,8 +99,8 @@ impl Transport {
 			}
 		}
 		self.position = position;
-		if self.position >= num_frames {
-			self.playing = false;
-		}
+		// seeking back into the audio after the end was reached (for example while
+		// the last frames are still being heard) resumes playback
+		self.playing = self.position < num_frames;
 	}
 }
